@@ -447,6 +447,26 @@ def clause_group_image(prog, rep):
                 ok = False
         rep.check(ok, "group-image", "hash-before-decrypt", "when a hash is published, the blob's SHA-256 is compared before any decryption",
                   "the group image is decrypted without first comparing the blob hash although one was published", f.loc())
+        # two formats are in use (v2: key derived from a seed, v1: the key itself); whether the v1 attempt follows a failed v2 attempt
+        # does not depend on whether a hash was published — a legacy extension publishes none
+        if len(decs) >= 2:
+            hash_params = set(l for l in range(1, f.nargs + 1) if "[u8; 32]" in f.locals[l] and "Option" in f.locals[l])
+            pairs = [(a, b) for a in decs for b in decs if a is not b and b.bb in f.reachable_from(a.bb) and a.bb not in f.reachable_from(b.bb)]
+            rep.floor("group-image", "v2 attempt followed by the v1 fallback", len(pairs), 1)
+            for d1, d2 in pairs[:1]:
+                r1 = f.reachable_from(d1.bb)
+                bad = []
+                for w in A.control_dependent_switches(f, d2.bb):
+                    if w not in r1:
+                        continue
+                    l = A._opl(f.term(w)["discr"])
+                    dep = f.depends_on(l)[0] if l is not None else set()
+                    if dep & hash_params:
+                        bad.append("%s:%s" % (f.file, f.term(w).get("line")))
+                rep.check(not bad, "group-image", "v1-fallback-independent-of-hash",
+                          "after a failed v2 attempt the v1 attempt runs whether or not a hash was published",
+                          "whether the v1 (direct key) attempt follows a failed v2 attempt depends on the published hash (%s): a v1 image of an "
+                          "extension without image_hash no longer decrypts" % bad, d2.loc())
     # domain separation of the HKDF labels
     consts = {}
     for f in prog.nontest_fns(("mdk_core",)):
